@@ -577,7 +577,9 @@ func (group *Group) writev2RtmpSubSessions(bs net.Buffers) {
 		if session.IsFresh || session.ShouldWaitVideoKeyFrame {
 			continue
 		}
-		_ = session.Writev(bs)
+		// net.Buffers.WriteTo consumes the slice it is called on (it nils out the
+		// elements of the shared backing array), so every session needs its own copy
+		_ = session.Writev(append(net.Buffers(nil), bs...))
 	}
 }
 
